@@ -1631,9 +1631,9 @@ def ppid_map():
         try:
             with open_binary(f"{procfs_path}/{pid}/stat") as f:
                 data = f.read()
-        except (FileNotFoundError, ProcessLookupError):
-            # Note: we should be able to access /stat for all processes
-            # aka it's unlikely we'll bump into EPERM, which is good.
+        except (FileNotFoundError, ProcessLookupError, PermissionError):
+            # The process vanished, or (unlikely) its /stat file cannot
+            # be read: either way it cannot be reported as a child.
             pass
         else:
             rpar = data.rfind(b')')
